@@ -58,9 +58,6 @@ impl tracing::Subscriber for Capture {
     fn event(&self, event: &Event<'_>) {
         if let Some(t) = interesting(event.metadata().target()) {
             COUNTS.with(|c| *c.borrow_mut().entry(t).or_insert(0) += 1);
-            if std::env::var("VERIF_DEBUG").is_ok() {
-                eprintln!("event {t} at {:?}", bach::time::Instant::try_now().map(|i| i.elapsed_since_start()));
-            }
         }
     }
     fn enter(&self, _span: &span::Id) {}
